@@ -21,6 +21,7 @@ import (
 	"github.com/go-task/task/v3/taskfile/ast"
 	"github.com/go-task/task/v3/verifhook"
 
+	"github.com/sajari/fuzzy"
 	"golang.org/x/sync/errgroup"
 	"mvdan.cc/sh/v3/interp"
 )
@@ -585,7 +586,10 @@ func (e *Executor) GetTask(call *Call) (*ast.Task, error) {
 	// If we found no tasks
 	if len(aliasedTasks) == 0 {
 		didYouMean := ""
-		if e.fuzzyModel != nil {
+		// A name that is more than the model's edit depth longer than every
+		// known name cannot be a misspelling of one of them, and the search
+		// needs memory that grows with the cube of the length of the name.
+		if e.fuzzyModel != nil && len(call.Task) <= e.fuzzyModelMaxLen+fuzzy.SpellDepthDefault {
 			didYouMean = e.fuzzyModel.SpellCheck(call.Task)
 		}
 		return nil, &errors.TaskNotFoundError{
